@@ -1,0 +1,113 @@
+//go:build verif
+
+package redis
+
+// Contracts for govc (contract-based deductive verification). Comment-only: this file
+// contributes no declarations and is compiled only with -tags verif.
+
+// ---- in-memory Redis provider (C12, C04): every allow-listed operation of the mock returns for
+// ---- every argument vector the reflective dispatcher can hand it - no index, nil-map,
+// ---- type-assertion or allocation-size panic (strict) - and touches the store only under mu.
+//@ spec func wfStore(m *MockHandler) bool = m.data != nil && m.lists != nil && m.hashes != nil && m.sets != nil && forall(k, string, has(m.hashes, k) ==> m.hashes[k] != nil) && forall(k, string, has(m.sets, k) ==> m.sets[k] != nil)
+//@ monitor MockHandler.mu guards data, lists, hashes, sets invariant wfStore(self)
+
+//@ func NewMockHandler
+//@   strict
+//@   ensures result != nil && fresh(result) && wfStore(result)
+//@ func (*MockHandler).Ping
+//@   strict
+//@ func (*MockHandler).Get
+//@   strict
+//@   requires m != nil
+//@ func (*MockHandler).Set
+//@   strict
+//@   requires m != nil
+//@ func (*MockHandler).Del
+//@   strict
+//@   requires m != nil
+//@   loop 1 invariant heldw(addr(m.mu)) && wfStore(m)
+//@ func (*MockHandler).Exists
+//@   strict
+//@   requires m != nil
+//@   loop 1 invariant held(addr(m.mu))
+//@ func (*MockHandler).Expire
+//@   strict
+//@   requires m != nil
+//@ func (*MockHandler).Ttl
+//@   strict
+//@   requires m != nil
+//@ func (*MockHandler).Incr
+//@   strict
+//@   requires m != nil
+//@ func (*MockHandler).Decr
+//@   strict
+//@   requires m != nil
+//@ func (*MockHandler).HGet
+//@   strict
+//@   requires m != nil
+//@ func (*MockHandler).HSet
+//@   strict
+//@   requires m != nil
+//@   loop 1 invariant heldw(addr(m.mu)) && wfStore(m) && has(m.hashes, key) && 1 <= i && i <= len(args) + 1
+//@ func (*MockHandler).HDel
+//@   strict
+//@   requires m != nil
+//@   loop 1 invariant heldw(addr(m.mu)) && wfStore(m) && hash != nil
+//@ func (*MockHandler).HGetAll
+//@   strict
+//@   requires m != nil
+//@   loop 1 invariant held(addr(m.mu)) && out != nil
+//@ func (*MockHandler).HExists
+//@   strict
+//@   requires m != nil
+//@ func (*MockHandler).LPush
+//@   strict
+//@   requires m != nil
+//@   loop 1 invariant heldw(addr(m.mu)) && wfStore(m)
+//@ func (*MockHandler).RPush
+//@   strict
+//@   requires m != nil
+//@   loop 1 invariant heldw(addr(m.mu)) && wfStore(m)
+//@ func (*MockHandler).LPop
+//@   strict
+//@   requires m != nil
+//@ func (*MockHandler).RPop
+//@   strict
+//@   requires m != nil
+//@ func (*MockHandler).LLen
+//@   strict
+//@   requires m != nil
+// LRange: the result is the requested window clamped to the list, element for element.
+//@ func (*MockHandler).LRange
+//@   strict
+//@   requires m != nil
+//@   ensures err == nil && len(result) <= len(m.lists[key])
+//@   loop 1 invariant held(addr(m.mu)) && 0 <= local(start) && local(start) <= i && i <= local(stop) + 1 && local(stop) < len(list) && len(out) == i - local(start)
+//@   loop 1 decreases local(stop) + 1 - i
+//@ func (*MockHandler).SAdd
+//@   strict
+//@   requires m != nil
+//@   loop 1 invariant heldw(addr(m.mu)) && wfStore(m) && has(m.sets, key)
+//@ func (*MockHandler).SRem
+//@   strict
+//@   requires m != nil
+//@   loop 1 invariant heldw(addr(m.mu)) && wfStore(m) && set != nil
+//@ func (*MockHandler).SMembers
+//@   strict
+//@   requires m != nil
+//@   loop 1 invariant held(addr(m.mu))
+//@ func (*MockHandler).SIsMember
+//@   strict
+//@   requires m != nil
+//@ func (*MockHandler).Publish
+//@   strict
+//@ func (*MockHandler).Keys
+//@   strict
+//@   requires m != nil
+//@   loop 1 invariant held(addr(m.mu))
+//@   loop 2 invariant held(addr(m.mu))
+//@   loop 3 invariant held(addr(m.mu))
+//@   loop 4 invariant held(addr(m.mu))
+//@ func (*MockHandler).FlushAll
+//@   strict
+//@   requires m != nil
